@@ -773,7 +773,8 @@ funcexpr(struct func *f, struct expr *e)
 		l = funcload(f, e->base->type, lval);
 		t = e->type;
 		if (t->kind == TYPEPOINTER) {
-			r = mkintconst(t->base->size);
+			calcvla(f, t);
+			r = t->base->size || t->base->kind != TYPEARRAY ? mkintconst(t->base->size) : t->base->u.array.size;
 		} else if (t->prop & PROPINT) {
 			r = mkintconst(1);
 		} else if (t->prop & PROPFLOAT) {
